@@ -1,5 +1,5 @@
 import RV.C07.Lemmas
-import RV.C07.LemmasText
+import RV.C07.LemmasRead
 /-
   C07 — property statements (each first as `def Statement_… : Prop` at full strength), theorems,
   non-vacuity examples.  "RDF terms obey identity laws: equality, hashing, ordering, pickling, n3 text."
@@ -256,5 +256,254 @@ theorem strOracle_sound : SoundOracle strOracle := by
       by_cases e : dt = Tables.xsdString <;> simp [strValue, e, strLt_irrefl]
   · simp only [strOracle, hl, ne_eq, not_true_eq_false, if_false, and_self]
     by_cases e : d.getD Tables.xsdString = Tables.xsdString <;> simp [e]
+
+/-! ## n3 text -/
+
+/-- the text forms cannot carry a Python subclass of URIRef: what is read back is the plain IRI -/
+def Term.plain : Term → Term
+  | .node .genid s => .node .uri s
+  | .node .rgenid s => .node .uri s
+  | t => t
+
+/-- the literals the property quantifies over: language tag XOR datatype, a tag `Literal.__new__` accepts,
+    a datatype that is an IRI (non-empty, no character of `_invalid_uri_chars`); and — not covered by the theorem —
+    no INF/NaN respelling by `_literal_n3` -/
+def WFText (E : Ext) : Term → Prop
+  | .node _ _ => True
+  | .lit x d l =>
+    (l = none ∨ d = none) ∧ (∀ t, l = some t → validLangTag t = true) ∧
+    (∀ u, d = some u → u ≠ [] ∧ isValidUri u = true) ∧
+    (∀ u, d = some u → u ∈ Tables.infNanTypes → E.floatKind x = .other)
+
+/-- constructing a literal from this lexical form leaves it alone (it is normalised already, or
+    normalisation is off and the xsd:token / xsd:normalizedString white-space rule is met) -/
+def TextStable (E : Ext) (nz : Bool) : Term → Prop
+  | .lit x d _ => wsNorm d (if nz then E.normFull d x else x) = x
+  | .node _ _ => True
+
+/-- `from_n3(t.n3()) == t` for every IRI `n3()` accepts, every blank node, every variable, every
+    literal with ANY lexical form.  FALSE as it stands when the reader normalises (`_witness`). -/
+def Statement_n3_roundtrip : Prop :=
+  ∀ (E : Ext) (nz : Bool) (t : Term) (txt : Str), ExtOK E → WFText E t → n3 E t = some txt →
+    fromN3 E nz txt = .term t.plain
+
+theorem n3_roundtrip_partial (E : Ext) (nz : Bool) (t : Term) (txt : Str) (hE : ExtOK E) (hw : WFText E t)
+    (hst : TextStable E nz t) (h : n3 E t = some txt) : fromN3 E nz txt = .term t.plain := by
+  cases t with
+  | node c s =>
+    cases c with
+    | bnode => simp only [n3, Option.some.injEq] at h; subst h; exact fromN3_bnode E hE nz s
+    | var => simp only [n3, Option.some.injEq] at h; subst h; exact fromN3_var E hE nz s
+    | uri =>
+      simp only [n3] at h
+      split at h
+      · next hv => simp only [Option.some.injEq] at h; subst h; exact fromN3_iri E hE nz s hv
+      · cases h
+    | genid =>
+      simp only [n3] at h
+      split at h
+      · next hv => simp only [Option.some.injEq] at h; subst h; exact fromN3_iri E hE nz s hv
+      · cases h
+    | rgenid =>
+      simp only [n3] at h
+      split at h
+      · next hv => simp only [Option.some.injEq] at h; subst h; exact fromN3_iri E hE nz s hv
+      · cases h
+  | lit x d l =>
+    obtain ⟨hxor, htag, hdt, hinf⟩ := hw
+    simp only [TextStable] at hst
+    simp only [n3, Option.some.injEq] at h
+    subst h
+    simp only [Term.plain]
+    cases l with
+    | some tag =>
+      have hv := htag tag rfl
+      have hd : d = none := by
+        rcases hxor with h' | h'
+        · cases h'
+        · exact h'
+      subst hd
+      cases tag with
+      | nil => simp [validLangTag] at hv
+      | cons c r =>
+        have hq := validLangTag_no_quote_hat hv
+        have hs : '"' ∉ '@' :: c :: r := by
+          intro hm
+          rcases List.mem_cons.mp hm with e | hm
+          · revert e; decide
+          · exact hq.1 hm
+        have hst' : (if nz = true then E.normFull none x else x) = x := by simpa [wsNorm] using hst
+        rw [litN3_lang, fromN3_quoteEncode E nz x _ hs, litFromParts_lang E nz x _ hq.2]
+        simp [mkLit, Rd.ofExcept, hv, wsNorm, hst']
+    | none =>
+      cases d with
+      | none =>
+        have hst' : (if nz = true then E.normFull none x else x) = x := by simpa [wsNorm] using hst
+        have h0 := fromN3_quoteEncode E nz x [] (by simp)
+        rw [List.append_nil] at h0
+        rw [litN3_plain, h0, litFromParts_plain]
+        simp [mkLit, Rd.ofExcept, wsNorm, hst']
+      | some u =>
+        obtain ⟨hne, hvu⟩ := hdt u rfl
+        cases u with
+        | nil => exact absurd rfl hne
+        | cons c r =>
+          have hs : '"' ∉ '^' :: '^' :: '<' :: (c :: r) ++ ['>'] := by
+            intro hm
+            simp only [List.cons_append, List.mem_cons, List.mem_append, List.mem_nil_iff, or_false] at hm
+            rcases hm with e | e | e | e | hm | e
+            · revert e; decide
+            · revert e; decide
+            · revert e; decide
+            · exact mem_invalid_of_not_valid hvu quote_invalid (List.mem_cons.mpr (Or.inl e))
+            · exact mem_invalid_of_not_valid hvu quote_invalid (List.mem_cons_of_mem _ hm)
+            · revert e; decide
+          rw [litN3_dt E x c r (hinf _ rfl), fromN3_quoteEncode E nz x _ hs, litFromParts_dt E hE nz x _ hvu]
+          simp [mkLit, Rd.ofExcept, hst]
+
+/-- a reader that normalises ("01" ↦ "1") does not give back a literal with the lexical form "01" -/
+def normExt : Ext := { drvExt with normFull := fun _ _ => ['1'] }
+
+theorem normExt_ok : ExtOK normExt where
+  iri := fun _ _ => rfl
+  num_us := by decide
+  num_q := by decide
+  low_us := fun s => ⟨lower s, by simp [normExt, drvExt, lower, lowerChar]⟩
+  low_q := fun s => ⟨lower s, by simp [normExt, drvExt, lower, lowerChar]⟩
+
+theorem n3_roundtrip_witness : ¬ Statement_n3_roundtrip := by
+  intro h
+  have hw : WFText normExt (.lit ['0', '1'] (some ['x']) none) := by
+    refine ⟨Or.inl rfl, ?_, ?_, ?_⟩
+    · intro t h; cases h
+    · intro u h; cases h; exact ⟨by decide, by decide⟩
+    · intro u h hm; cases h; exact absurd hm (by decide)
+  have := h normExt true (.lit ['0', '1'] (some ['x']) none) _ normExt_ok hw rfl
+  revert this
+  decide
+
+/-- with normalisation off and a datatype other than xsd:token / xsd:normalizedString nothing is assumed
+    about the lexical form at all -/
+theorem n3_roundtrip_any_lexical (E : Ext) (x : Str) (d l : Option Str) (txt : Str) (hE : ExtOK E)
+    (hw : WFText E (.lit x d l)) (hd : d ≠ some Tables.xsdNormalizedString ∧ d ≠ some Tables.xsdToken)
+    (h : n3 E (.lit x d l) = some txt) : fromN3 E false txt = .term (.lit x d l) := by
+  have := n3_roundtrip_partial E false (.lit x d l) txt hE hw (by simp [TextStable, wsNorm, hd.1, hd.2]) h
+  simpa [Term.plain] using this
+
+/-- `URIRef.n3` refuses exactly the IRIs with a character of `_invalid_uri_chars` -/
+def Statement_n3_guard : Prop :=
+  ∀ (E : Ext) (c : NCls) (s : Str), c.kind = .iri →
+    ((n3 E (.node c s)).isSome ↔ ∀ x ∈ Tables.invalidUriChars, x ∉ s)
+
+theorem n3_guard : Statement_n3_guard := by
+  intro E c s hc
+  have key : isValidUri s = true ↔ ∀ x ∈ Tables.invalidUriChars, x ∉ s := by
+    simp [isValidUri, List.all_eq_true]
+  cases c with
+  | bnode => cases hc
+  | var => cases hc
+  | uri => simp only [n3]; rw [← key]; split <;> simp_all
+  | genid => simp only [n3]; rw [← key]; split <;> simp_all
+  | rgenid => simp only [n3]; rw [← key]; split <;> simp_all
+
+/-! ## pickling and copying: `__reduce__` and rebuilding -/
+
+/-- the terms the constructors can build: any string in any non-literal class, literals through `Literal.__new__` -/
+inductive Reachable (E : Ext) : Term → Prop
+  | node (c : NCls) (s : Str) : Reachable E (.node c s)
+  | lit (nz : Bool) (x : Str) (l d : Option Str) (t : Term) : mkLit E nz x l d = .ok t → Reachable E t
+
+/-- the white-space rule of xsd:token / xsd:normalizedString applied twice is the same as once -/
+def WsIdem : Prop := ∀ (d : Option Str) (y : Str), wsNorm d (wsNorm d y) = wsNorm d y
+
+/-- pickle / copy / deepcopy give back the term itself -/
+def Statement_reduce_rebuild : Prop :=
+  ∀ (E : Ext) (t : Term), Reachable E t → rebuild E (reduce t) = .ok t
+
+theorem reduce_rebuild_of_wsIdem (hws : WsIdem) : Statement_reduce_rebuild := by
+  intro E t ht
+  cases ht with
+  | node c s => cases c <;> simp [reduce, rebuild, mkVar]
+  | lit nz x l d t h =>
+    have key : ∀ lang : Option Str, lang ≠ some [] → mkLit E nz x lang d = .ok t → rebuild E (reduce t) = .ok t := by
+      intro lang hne h
+      simp only [mkLit, hne, if_false] at h
+      cases lang with
+      | none =>
+        simp only [Option.isSome_none, Bool.false_eq_true, false_and, if_false, Except.ok.injEq] at h
+        subst h
+        simp only [reduce, rebuild, mkLit]
+        simp only [Option.isSome_none, Bool.false_eq_true, false_and, if_false, reduceCtorEq]
+        rw [hws]
+      | some tag =>
+        cases d with
+        | some u => simp at h
+        | none =>
+          simp only [Option.isSome_none, Bool.false_eq_true, and_false, if_false] at h
+          by_cases hv : validLangTag tag = true
+          · simp only [hv, if_true, Except.ok.injEq] at h
+            subst h
+            simp only [reduce, rebuild, mkLit, hne, hv, if_true, if_false, Option.isSome_none,
+              Bool.false_eq_true, and_false]
+            rw [hws]
+          · simp [hv] at h
+    by_cases hl : l = some []
+    · subst hl
+      have : mkLit E nz x (some []) d = mkLit E nz x none d := by simp [mkLit]
+      rw [this] at h
+      exact key none (by simp) h
+    · exact key l hl h
+
+/-- the pre-fix `Literal.__reduce__` rebuilt with the default `normalize=True`: a literal with a lexical form
+    that is not the normalised one came back changed (regression witness of C07-F2) -/
+theorem old_reduce_renormalises :
+    mkLit normExt true ['0', '1'] none (some ['x']) = .ok (.lit ['1'] (some ['x']) none) := by
+  simp [mkLit, normExt, wsNorm, Tables.xsdNormalizedString, Tables.xsdToken]
+
+/-! ## regenerated tables -/
+
+/-- `_ORDERING`: BNode < Variable < URIRef ≤ its subclasses < Literal, all ranks distinct -/
+theorem table_ordering :
+    Tables.ordBNode < Tables.ordVariable ∧ Tables.ordVariable < Tables.ordURIRef ∧
+    Tables.ordURIRef < Tables.ordGenid ∧ Tables.ordGenid < Tables.ordRDFLibGenid ∧
+    Tables.ordRDFLibGenid < Tables.ordLiteral := by decide
+
+/-- the model's `_quote_encode` agrees with the escapes probed from the live `Literal._quote_encode`
+    on every probed character (short quoting; long quoting with the character in the middle) -/
+theorem table_short_escapes :
+    Tables.probed.all (fun c => c == '\n' ||
+      shortEncode [c, 'x'] == (alookupS c Tables.shortEscapes).getD [c] ++ ['x']) = true := by
+  decide +kernel
+
+theorem table_long_escapes :
+    Tables.probed.all (fun c =>
+      longEncode ['\n', c, 'x'] == '\n' :: (alookupS c Tables.longEscapes).getD [c] ++ ['x']) = true := by
+  decide +kernel
+
+/-- the characters `URIRef.n3` refuses include what the reader relies on -/
+theorem table_invalid_chars :
+    '"' ∈ Tables.invalidUriChars ∧ '^' ∈ Tables.invalidUriChars ∧ '\\' ∈ Tables.invalidUriChars ∧
+    '<' ∈ Tables.invalidUriChars ∧ '>' ∈ Tables.invalidUriChars := by decide
+
+/-! ## non-vacuity -/
+
+def exLit : Term := .lit ['a', '"', '\\', '\n', '"'] none (some ['e', 'n'])
+
+example : ExtOK drvExt :=
+  ⟨fun _ _ => rfl, by decide, by decide, fun s => ⟨lower s, by simp [drvExt, lower, lowerChar]⟩,
+   fun s => ⟨lower s, by simp [drvExt, lower, lowerChar]⟩⟩
+example : WFText drvExt exLit := by
+  refine ⟨Or.inr rfl, ?_, ?_, ?_⟩
+  · intro t h; cases h; decide
+  · intro u h; cases h
+  · intro u h; cases h
+example : TextStable drvExt false exLit := by simp [TextStable, exLit, wsNorm]
+example : n3 drvExt exLit = some "\"\"\"a\"\\\\\n\\\"\"\"\"@en".toList := by decide
+example : fromN3 drvExt false "\"\"\"a\"\\\\\n\\\"\"\"\"@en".toList = .term exLit := by decide
+example : eqb (.lit ['a'] none (some ['e', 'n'])) (.lit ['a'] none (some ['E', 'N'])) = true := by decide
+example : Reachable drvExt exLit :=
+  .lit false ['a', '"', '\\', '\n', '"'] (some ['e', 'n']) none _ (by simp [mkLit, wsNorm, exLit]; decide)
+example : (sortT (ltTerm strOracle) [.iri ['b'], .bnode ['z'], .var ['a'], .iri ['a']]) =
+    [.bnode ['z'], .var ['a'], .iri ['a'], .iri ['b']] := by decide
 
 end RV.C07
